@@ -7,39 +7,41 @@ From Coq Require Import Floats ZArith Uint63 List Bool Arith Lia.
 From TK Require Import Landmark_Float.
 Import ListNotations.
 
-(* the N in [3, 1025) for which the smallest ratio accepted by validate(), fl(3.0/N), gives
+(* the N in [3, 4097) (bound extended in wave 2; 170 values) for which the smallest ratio accepted by validate(), fl(3.0/N), gives
    trunc(fl(N * fl(3.0/N))) = 2 landmarks instead of 3 *)
-Definition short_list : list nat := [47; 94; 147; 173; 188; 294; 307; 309; 321; 346; 355; 365; 367; 376; 383; 535; 559; 588; 591; 607; 613; 614; 618; 625; 637; 642; 667; 692; 710; 711; 717; 727; 730; 734; 737; 747; 752; 761; 763; 766].
+Definition short_list : list Z := [47; 94; 147; 173; 188; 294; 307; 309; 321; 346; 355; 365; 367; 376; 383; 535; 559; 588; 591; 607; 613; 614; 618; 625; 637; 642; 667; 692; 710; 711; 717; 727; 730; 734; 737; 747; 752; 761; 763; 766; 1070; 1118; 1121; 1159; 1176; 1181; 1182; 1214; 1226; 1228; 1236; 1250; 1261; 1274; 1275; 1284; 1291; 1301; 1329; 1334; 1384; 1415; 1420; 1422; 1423; 1434; 1437; 1454; 1460; 1468; 1473; 1474; 1493; 1494; 1495; 1497; 1503; 1504; 1505; 1509; 1522; 1523; 1526; 1532; 2073; 2140; 2175; 2211; 2236; 2242; 2318; 2352; 2362; 2364; 2369; 2425; 2427; 2428; 2451; 2452; 2456; 2469; 2471; 2472; 2500; 2509; 2519; 2522; 2523; 2547; 2548; 2550; 2568; 2571; 2582; 2591; 2602; 2621; 2645; 2658; 2668; 2685; 2687; 2689; 2693; 2705; 2749; 2761; 2768; 2781; 2783; 2785; 2787; 2795; 2830; 2839; 2840; 2841; 2844; 2846; 2868; 2874; 2875; 2905; 2907; 2908; 2911; 2920; 2936; 2939; 2946; 2948; 2965; 2981; 2986; 2988; 2990; 2994; 3006; 3008; 3009; 3010; 3018; 3044; 3045; 3046; 3052; 3055; 3061; 3064]%Z.
 
+(* membership is tested on binary integers (Z.of_nat N is computed once per N): the sweep is linear *)
 Definition lower_bound_check (N : nat) : bool :=
+  let z := Z.of_nat N in
   ratio_valid N (ratio_lower N) &&
   match n_landmarks_fl N (ratio_lower N) with
-  | Some 3%Z => negb (existsb (Nat.eqb N) short_list)
-  | Some 2%Z => existsb (Nat.eqb N) short_list
+  | Some 3%Z => negb (existsb (Z.eqb z) short_list)
+  | Some 2%Z => existsb (Z.eqb z) short_list
   | _ => false
   end.
 
-Lemma lower_bound_sweep : all_in_range 3 1022 lower_bound_check = true.
+Lemma lower_bound_sweep : all_in_range 3 4094 lower_bound_check = true.
 Proof. vm_compute. reflexivity. Qed.
 
 Theorem ratio_bound_gives_three_partial_lemma :
-  forall N, 3 <= N < 1025 ->
+  forall N, 3 <= N < 4097 ->
     ratio_valid N (ratio_lower N) = true /\
-    ((~ In N short_list /\ n_landmarks_fl N (ratio_lower N) = Some 3%Z) \/
-     (In N short_list /\ n_landmarks_fl N (ratio_lower N) = Some 2%Z)).
+    ((~ In (Z.of_nat N) short_list /\ n_landmarks_fl N (ratio_lower N) = Some 3%Z) \/
+     (In (Z.of_nat N) short_list /\ n_landmarks_fl N (ratio_lower N) = Some 2%Z)).
 Proof.
-  intros N HN. pose proof (all_in_range_ok 3 1022 _ lower_bound_sweep N) as H.
-  assert (HN' : 3 <= N < 3 + 1022) by lia. specialize (H HN'). unfold lower_bound_check in H.
-  apply andb_true_iff in H. destruct H as [Hv H]. split; [exact Hv|].
+  intros N HN. pose proof (all_in_range_ok 3 4094 _ lower_bound_sweep N) as H.
+  assert (HN' : 3 <= N < 3 + 4094) by lia. specialize (H HN'). unfold lower_bound_check in H.
+  cbv zeta in H. apply andb_true_iff in H. destruct H as [Hv H]. split; [exact Hv|].
   destruct (n_landmarks_fl N (ratio_lower N)) as [z|]; [|discriminate].
   destruct z as [|p|p]; try discriminate.
   destruct p as [p|p|]; try discriminate; destruct p as [p|p|]; try discriminate.
   - (* 3 *) left. split; [|reflexivity]. apply negb_true_iff in H. intros Hin.
-    assert (E : existsb (Nat.eqb N) short_list = true).
-    { apply existsb_exists. exists N. split; [assumption|apply Nat.eqb_refl]. }
+    assert (E : existsb (Z.eqb (Z.of_nat N)) short_list = true).
+    { apply existsb_exists. exists (Z.of_nat N). split; [assumption|apply Z.eqb_refl]. }
     rewrite E in H. discriminate.
   - (* 2 *) right. split; [|reflexivity]. apply existsb_exists in H.
-    destruct H as [y [Hy E]]. apply Nat.eqb_eq in E. subst. assumption.
+    destruct H as [y [Hy E]]. apply Z.eqb_eq in E. rewrite E. assumption.
 Qed.
 
 (* landmark_ratio = 1: every sample is a landmark (N * 1.0 is exact) *)
